@@ -123,7 +123,7 @@ def gen_plan(seed, index, tier):
     bound_kind = rng.choice(["diff", "ratio"])
     plan = {
         "v": 1, "rows": rows, "moment": kind, "bound_kind": bound_kind,
-        "bound": rng.choice([0.0, 0.01, 0.05, 0.1]) if bound_kind == "diff" else rng.choice([0.0, 0.01, 0.05]),
+        "bound": rng.choice([0.0, 0.01, 0.05, 0.1]) if bound_kind == "diff" else rng.choice([0.0, 0.01, 0.05, 0.1, 0.2]),
         "ratio": 1.0 if bound_kind == "diff" else rng.choice([0.5, 0.8, 0.9, 1.0]),
         "eps": rng.choice([0.01, 0.05, 0.1, 0.2]),
         "max_iter": rng.choice([1, 2, 3, 5, 7, 10, 20, 30]),
